@@ -118,6 +118,13 @@ def gen_case(rng):
     elif kind < 0.94:
         meta["kind"] = "skip-parent"
         opts["skipParent"] = True
+        if rng.random() < 0.5:
+            # ... also when the top layer carries a $parent that names no layer at all (or a wildcard matching nothing)
+            ext, docs = contents[top]
+            d0 = dict(docs[0])
+            d0["$parent"] = rng.choice(["nosuch", ["nosuch", "gone"], "nos*", names[0], "defaults"])
+            contents[top] = (ext if ext != "toml" else "yaml", [d0] + list(docs[1:]))
+            meta["kind"] = "skip-parent-dangling"
     else:
         meta["kind"] = "multi-input"
     for n, (ext, docs) in contents.items():
